@@ -87,10 +87,14 @@ class MidiTrack(object):
     def play_Bar(self, bar):
         """Convert a Bar object to MIDI events and write them to the
         track_data."""
+        if bar.meter[1] != 0:
+            # (a bar in free time, meter (0, 0), has no time signature; a time
+            # signature that cannot be written is refused here, before the
+            # rest that is pending is given away)
+            self.time_signature_event(bar.meter)
         self.set_deltatime(self.delay)
         self.delay = 0
         if bar.meter[1] != 0:
-            # (a bar in free time, meter (0, 0), has no time signature)
             self.set_meter(bar.meter)
             self.set_deltatime(0)
         self.set_key(bar.key)
